@@ -207,7 +207,16 @@ def impl_shapes(case):
     printed = {"params": [[p["name"], p["kind"], p["default"]] for p in sig["params"]], "rc": sig["rc"]}
     baseline = find_baseline(cat, tag, sig)
     if baseline is None:
-        return {"sig": printed, "live": live, "baseline": None, "shapes": []}
+        # no call with the documented parameter NAMES compiles: does the same call written positionally?
+        required = [p for p in sig["params"] if not p["default"] and p["kind"] == "p"]
+        positional_ok = None
+        if required and len(required) == len([p for p in sig["params"] if not p["default"] and p["kind"] in ("p", "k")]):
+            for values in itertools.islice(itertools.product(*[cand(p["ann"]) for p in required]), 300):
+                text = call_text(cat, tag, list(values), [], sig["rc"] is True)
+                if _compile(text)[0] == "ok":
+                    positional_ok = text
+                    break
+        return {"sig": printed, "live": live, "baseline": None, "shapes": [], "positional_ok": positional_ok}
     optvals = {p["name"]: optional_value(cat, tag, sig, baseline, p) for p in sig["params"]
                if p["default"] and p["kind"] in ("p", "k") and p["name"] not in baseline}
     results = []
@@ -239,6 +248,9 @@ def oracle_shapes(case, obs):
         return obs["error"]
     if obs["sig"]["params"] != obs["live"]["params"] or obs["sig"]["rc"] != obs["live"]["rc"]:
         return (f"--help {cat}.{tag} prints {obs['sig']!r} but the instantiated class has {obs['live']!r}")
+    if obs.get("baseline") is None and obs.get("positional_ok"):
+        return (f"{cat}.{tag}: {obs['positional_ok']!r} is accepted but no call naming the documented parameters "
+                f"{[p[0] for p in obs['sig']['params']]} is (a documented parameter name is rejected as a named argument)")
     model = obs.get("model")
     for i, s in enumerate(obs["shapes"]):
         out = s["outcome"]
